@@ -17,14 +17,49 @@ namespace Local
   simp [State.goto, h]
 
 @[simp] theorem goto_uploadId (s : State) (t : Nat) (p : PC) : (s.goto t p).uploadId = s.uploadId := rfl
-@[simp] theorem goto_lock (s : State) (t : Nat) (p : PC) : (s.goto t p).lock = s.lock := rfl
+@[simp] theorem goto_slot (s : State) (t : Nat) (p : PC) : (s.goto t p).slot = s.slot := rfl
+@[simp] theorem goto_mylock (s : State) (t : Nat) (p : PC) : (s.goto t p).mylock = s.mylock := rfl
+@[simp] theorem goto_locks (s : State) (t : Nat) (p : PC) : (s.goto t p).locks = s.locks := rfl
 @[simp] theorem goto_creates (s : State) (t : Nat) (p : PC) : (s.goto t p).creates = s.creates := rfl
 @[simp] theorem goto_calls (s : State) (t : Nat) (p : PC) : (s.goto t p).calls = s.calls := rfl
 
-/-- program points inside the `with _mpu_local_lock():` block -/
+@[simp] theorem setMy_self (s : State) (t l : Nat) : (s.setMy t l).mylock t = l := by simp [State.setMy]
+theorem setMy_other (s : State) {t t' : Nat} (l : Nat) (h : t' ≠ t) :
+    (s.setMy t l).mylock t' = s.mylock t' := by simp [State.setMy, h]
+@[simp] theorem setHolder_self (s : State) (l : Nat) (h : Option Nat) : (s.setHolder l h).locks l = h := by
+  simp [State.setHolder]
+theorem setHolder_other (s : State) {l l' : Nat} (h : Option Nat) (hne : l' ≠ l) :
+    (s.setHolder l h).locks l' = s.locks l' := by simp [State.setHolder, hne]
+
+@[simp] theorem setMy_slot (s : State) (t l : Nat) : (s.setMy t l).slot = s.slot := rfl
+@[simp] theorem setMy_locks (s : State) (t l : Nat) : (s.setMy t l).locks = s.locks := rfl
+@[simp] theorem setMy_pc (s : State) (t l : Nat) : (s.setMy t l).pc = s.pc := rfl
+@[simp] theorem setMy_uploadId (s : State) (t l : Nat) : (s.setMy t l).uploadId = s.uploadId := rfl
+@[simp] theorem setMy_creates (s : State) (t l : Nat) : (s.setMy t l).creates = s.creates := rfl
+@[simp] theorem setMy_calls (s : State) (t l : Nat) : (s.setMy t l).calls = s.calls := rfl
+@[simp] theorem setHolder_slot (s : State) (l : Nat) (h : Option Nat) : (s.setHolder l h).slot = s.slot := rfl
+@[simp] theorem setHolder_mylock (s : State) (l : Nat) (h : Option Nat) :
+    (s.setHolder l h).mylock = s.mylock := rfl
+@[simp] theorem setHolder_pc (s : State) (l : Nat) (h : Option Nat) : (s.setHolder l h).pc = s.pc := rfl
+@[simp] theorem setHolder_uploadId (s : State) (l : Nat) (h : Option Nat) :
+    (s.setHolder l h).uploadId = s.uploadId := rfl
+@[simp] theorem setHolder_creates (s : State) (l : Nat) (h : Option Nat) :
+    (s.setHolder l h).creates = s.creates := rfl
+@[simp] theorem setHolder_calls (s : State) (l : Nat) (h : Option Nat) :
+    (s.setHolder l h).calls = s.calls := rfl
+
+/-- program points inside the `with <lock>:` block -/
 def inCS : PC → Bool
   | .recheck | .initAssert | .create | .setId _ | .release _ => true
   | _ => false
+
+/-- program points at which the thread has been handed its lock object and still uses it -/
+def usesLock : PC → Bool
+  | .acquire | .recheck | .initAssert | .create | .setId _ | .release _ => true
+  | _ => false
+
+theorem usesLock_of_inCS {p : PC} (h : inCS p = true) : usesLock p = true := by
+  cases p <;> simp_all [inCS, usesLock]
 
 /-- What thread `t` may rely on when it is at program point `p` (repaired code). -/
 def PCok (cfg : Cfg) (s : State) (t : Nat) : PC → Prop
@@ -44,19 +79,51 @@ def PCok (cfg : Cfg) (s : State) (t : Nat) : PC → Prop
   | .failed => False
   | .start => True
   | .askClient => True
+  | .lockGet => True
+  | .lockSetdefault => True
   | .acquire => True
+
+/-- Lock discipline: every thread that has been handed a lock object was handed the one
+stored in `_state`; a thread inside the block holds it; nothing else is ever held. -/
+structure LockInv (s : State) : Prop where
+  sel : ∀ t, usesLock (s.pc t) = true → s.slot = some (s.mylock t)
+  holds : ∀ t, inCS (s.pc t) = true → s.locks (s.mylock t) = some t
+  only : ∀ l h, s.locks l = some h → s.slot = some l ∧ inCS (s.pc h) = true
 
 /-- The inductive invariant of the repaired local protocol. -/
 structure Inv (cfg : Cfg) (s : State) : Prop where
   ids : (s.uploadId = 0 ∨ s.uploadId = 1) ∧ (s.uploadId = 1 → s.creates = 1) ∧ s.creates ≤ 1
-  free : s.lock = none → s.uploadId = 0 → s.creates = 0
-  mutex : ∀ t, inCS (s.pc t) = true ↔ s.lock = some t
+  free : s.held = none → s.uploadId = 0 → s.creates = 0
+  lk : LockInv s
   pcs : ∀ t, PCok cfg s t (s.pc t)
   calls : ∀ c ∈ s.calls, c.id = 1
   count : s.calls.countP Call.isCreate = s.creates
 
 theorem inv_init (cfg : Cfg) : Inv cfg init := by
-  refine ⟨?_, ?_, ?_, ?_, ?_, ?_⟩ <;> simp [init, inCS, PCok]
+  refine ⟨?_, ?_, ⟨?_, ?_, ?_⟩, ?_, ?_, ?_⟩ <;> simp [init, inCS, usesLock, PCok]
+
+/-- at most one thread is inside the block -/
+theorem LockInv.mutex {s : State} (hL : LockInv s) {t t' : Nat}
+    (h : inCS (s.pc t) = true) (h' : inCS (s.pc t') = true) : t = t' := by
+  have e1 := hL.sel t (usesLock_of_inCS h)
+  have e2 := hL.sel t' (usesLock_of_inCS h')
+  have hm : s.mylock t = s.mylock t' := Option.some.inj (e1.symm.trans e2)
+  have l1 := hL.holds t h
+  have l2 := hL.holds t' h'
+  rw [hm] at l1
+  exact Option.some.inj (l1.symm.trans l2)
+
+theorem LockInv.others_outside {s : State} (hL : LockInv s) {t : Nat} (h : inCS (s.pc t) = true)
+    (t' : Nat) (hne : t' ≠ t) : inCS (s.pc t') = false := by
+  cases hc : inCS (s.pc t') with
+  | false => rfl
+  | true => exact absurd (hL.mutex hc h) hne
+
+theorem LockInv.held_of_inCS {s : State} (hL : LockInv s) {t : Nat} (h : inCS (s.pc t) = true) :
+    s.held = some t := by
+  have e1 := hL.sel t (usesLock_of_inCS h)
+  simp only [State.held, e1]
+  exact hL.holds t h
 
 /-- `PCok` only looks at the upload id, the create counter and membership in the call log. -/
 theorem PCok_mono {cfg : Cfg} {s s' : State} {t : Nat} {p : PC}
@@ -78,7 +145,7 @@ theorem PCok_outside_one {cfg : Cfg} {s s' : State} {t : Nat} {p : PC}
     (hcs : inCS p = false) (hu : s'.uploadId = 1) (hcalls : ∀ c, c ∈ s.calls → c ∈ s'.calls)
     (h : PCok cfg s t p) : PCok cfg s' t p := by
   cases p with
-  | start | askClient | acquire => trivial
+  | start | askClient | lockGet | lockSetdefault | acquire => trivial
   | recheck | initAssert | create => simp [inCS] at hcs
   | setId _ => simp [inCS] at hcs
   | release _ => simp [inCS] at hcs
@@ -91,65 +158,174 @@ theorem PCok_outside_one {cfg : Cfg} {s s' : State} {t : Nat} {p : PC}
     split <;> rename_i hk <;> rw [hk] at h2 <;> exact hcalls _ h2
   | failed => exact h.elim
 
+/-- The lock discipline is untouched by a step that leaves `_state`, the lock objects and
+the threads' lock references alone and keeps thread `t` on the same side of the block. -/
+theorem lockinv_frame {s s' : State} {t : Nat} {p : PC} (hL : LockInv s)
+    (hslot : s'.slot = s.slot) (hmy : s'.mylock = s.mylock) (hlocks : s'.locks = s.locks)
+    (hpc : s'.pc = (s.goto t p).pc)
+    (hcs : inCS p = inCS (s.pc t)) (hul : usesLock p = usesLock (s.pc t)) : LockInv s' := by
+  refine ⟨?_, ?_, ?_⟩
+  · intro t'
+    rw [hpc, hslot, hmy]
+    by_cases h : t' = t
+    · rw [h, goto_pc_self, hul]; exact hL.sel t
+    · rw [goto_pc_other _ _ h]; exact hL.sel t'
+  · intro t'
+    rw [hpc, hmy, hlocks]
+    by_cases h : t' = t
+    · rw [h, goto_pc_self, hcs]; exact hL.holds t
+    · rw [goto_pc_other _ _ h]; exact hL.holds t'
+  · intro l h
+    rw [hpc, hslot, hlocks]
+    intro hl
+    have := hL.only l h hl
+    refine ⟨this.1, ?_⟩
+    by_cases e : h = t
+    · rw [e, goto_pc_self, hcs]; rw [e] at this; exact this.2
+    · rw [goto_pc_other _ _ e]; exact this.2
+
 /-- A step that only moves thread `t` to a program point on the same side of the lock. -/
 theorem inv_goto {cfg : Cfg} {s : State} {t : Nat} {p : PC} (hI : Inv cfg s)
-    (hcs : inCS p = inCS (s.pc t)) (hp : PCok cfg s t p) : Inv cfg (s.goto t p) := by
-  refine ⟨hI.ids, hI.free, ?_, ?_, hI.calls, hI.count⟩
-  · intro t'
-    by_cases h : t' = t
-    · subst h; simpa [hcs] using hI.mutex t'
-    · simpa [h] using hI.mutex t'
-  · intro t'
-    by_cases h : t' = t
-    · rw [h, goto_pc_self]; exact PCok_mono (s := s) (s' := s.goto t p) rfl rfl (fun _ hc => hc) hp
-    · rw [goto_pc_other _ _ h]
-      exact PCok_mono (s := s) (s' := s.goto t p) rfl rfl (fun _ hc => hc) (hI.pcs t')
+    (hcs : inCS p = inCS (s.pc t)) (hul : usesLock p = usesLock (s.pc t))
+    (hp : PCok cfg s t p) : Inv cfg (s.goto t p) := by
+  refine ⟨hI.ids, hI.free, lockinv_frame hI.lk rfl rfl rfl rfl hcs hul, ?_, hI.calls, hI.count⟩
+  intro t'
+  by_cases h : t' = t
+  · rw [h, goto_pc_self]; exact PCok_mono (s := s) (s' := s.goto t p) rfl rfl (fun _ hc => hc) hp
+  · rw [goto_pc_other _ _ h]
+    exact PCok_mono (s := s) (s' := s.goto t p) rfl rfl (fun _ hc => hc) (hI.pcs t')
 
-theorem step_inv (cfg : Cfg) (hr : cfg.recheck = true) (s : State) (t : Nat) (hI : Inv cfg s) :
-    Inv cfg (step cfg s t) := by
+/-- thread `t` is handed the lock object `l` that is stored in `_state` -/
+theorem inv_take_existing {cfg : Cfg} {s : State} {t l : Nat} (hI : Inv cfg s)
+    (hout : usesLock (s.pc t) = false) (hslot : s.slot = some l) :
+    Inv cfg ((s.setMy t l).goto t .acquire) := by
+  have hncs : inCS (s.pc t) = false := by
+    cases hc : inCS (s.pc t) with
+    | false => rfl
+    | true => rw [usesLock_of_inCS hc] at hout; exact absurd hout (by simp)
+  refine ⟨hI.ids, hI.free, ⟨?_, ?_, ?_⟩, ?_, hI.calls, hI.count⟩
+  · intro t'
+    by_cases h : t' = t
+    · intro _; rw [h]; simpa using hslot
+    · simp only [goto_pc_other _ _ h, goto_mylock, goto_slot, setMy_other _ _ h]
+      exact hI.lk.sel t'
+  · intro t'
+    by_cases h : t' = t
+    · rw [h]; simp [inCS]
+    · simp only [goto_pc_other _ _ h, goto_mylock, goto_locks, setMy_other _ _ h]
+      exact hI.lk.holds t'
+  · intro l' h hl
+    have := hI.lk.only l' h hl
+    refine ⟨this.1, ?_⟩
+    by_cases e : h = t
+    · rw [e, hncs] at this; exact absurd this.2 (by simp)
+    · simp only [goto_pc_other _ _ e]; exact this.2
+  · intro t'
+    by_cases h : t' = t
+    · rw [h, goto_pc_self]; trivial
+    · rw [goto_pc_other _ _ h]
+      exact PCok_mono (s := s) rfl rfl (fun _ hc => hc) (hI.pcs t')
+
+theorem step_inv (cfg : Cfg) (hr : cfg.recheck = true) (ha : cfg.atomicLock = true) (s : State) (t : Nat)
+    (hI : Inv cfg s) : Inv cfg (step cfg s t) := by
   have hpt := hI.pcs t
-  have hmt := hI.mutex t
+  have hL := hI.lk
   unfold step
   cases hpc : s.pc t with
   | start =>
     simp only
     apply inv_goto hI
     · rw [hpc]; split <;> rfl
+    · rw [hpc]; split <;> rfl
     · split
       · rename_i hne
         have := hI.ids.1
         simp only [PCok]; omega
       · trivial
-  | askClient => exact inv_goto hI (by rw [hpc]; rfl) trivial
+  | askClient => exact inv_goto hI (by rw [hpc]; rfl) (by rw [hpc]; rfl) trivial
+  | lockGet =>
+    simp only
+    cases hs : s.slot with
+    | some l => exact inv_take_existing hI (by rw [hpc]; rfl) hs
+    | none => exact inv_goto hI (by rw [hpc]; rfl) (by rw [hpc]; rfl) trivial
+  | lockSetdefault =>
+    simp only [ha]
+    cases hs : s.slot with
+    | some l => exact inv_take_existing hI (by rw [hpc]; rfl) hs
+    | none =>
+      simp only
+      -- nothing can be held and nobody has a lock object yet: `_state` was empty
+      have hnone : ∀ l h, s.locks l = some h → False := fun l h hl => by
+        have := (hL.only l h hl).1; rw [hs] at this; exact absurd this (by simp)
+      have hnou : ∀ t', usesLock (s.pc t') = true → False := fun t' hu => by
+        have := hL.sel t' hu; rw [hs] at this; exact absurd this (by simp)
+      have hheld : s.held = none := by simp [State.held, hs]
+      refine ⟨hI.ids, fun _ => hI.free hheld, ⟨?_, ?_, ?_⟩, ?_, hI.calls, hI.count⟩
+      · intro t'
+        by_cases h : t' = t
+        · intro _; rw [h]; simp [State.setMy]
+        · simp only [goto_pc_other _ _ h]
+          intro hu; exact (hnou t' hu).elim
+      · intro t'
+        by_cases h : t' = t
+        · rw [h]; simp [inCS]
+        · simp only [goto_pc_other _ _ h]
+          intro hc; exact (hnou t' (usesLock_of_inCS hc)).elim
+      · intro l h hl
+        exact (hnone l h hl).elim
+      · intro t'
+        by_cases h : t' = t
+        · rw [h, goto_pc_self]; trivial
+        · rw [goto_pc_other _ _ h]
+          exact PCok_mono (s := s) rfl rfl (fun _ hc => hc) (hI.pcs t')
   | acquire =>
     simp only
-    rw [hpc] at hmt
-    cases hl : s.lock with
+    have hsel : s.slot = some (s.mylock t) := hL.sel t (by rw [hpc]; rfl)
+    cases hl : s.locks (s.mylock t) with
     | some h => simpa using hI
     | none =>
       simp only [hr, if_true]
-      refine ⟨hI.ids, ?_, ?_, ?_, hI.calls, hI.count⟩
-      · intro h; simp at h
+      have hheld : s.held = none := by simp [State.held, hsel, hl]
+      refine ⟨hI.ids, ?_, ⟨?_, ?_, ?_⟩, ?_, hI.calls, hI.count⟩
+      · intro h
+        simp [State.held, State.setHolder, State.goto, hsel] at h
       · intro t'
         by_cases h : t' = t
-        · subst h; simp [inCS]
-        · have := hI.mutex t'
-          rw [hl] at this
-          simp only [goto_pc_other _ _ h, goto_lock]
-          constructor
-          · intro hc; exact absurd (this.1 hc) (by simp)
-          · intro hc; exact absurd (Option.some.inj hc) (fun e => h e.symm)
+        · intro _; rw [h]; exact hsel
+        · simp only [goto_pc_other _ _ h]; exact hL.sel t'
       · intro t'
         by_cases h : t' = t
-        · subst h
-          simp only [goto_pc_self, PCok]
-          exact hI.free hl
-        · simp only [goto_pc_other _ _ h]
+        · intro _; rw [h]; simp [State.setHolder, State.goto]
+        · simp only [goto_pc_other _ _ h, goto_mylock, goto_locks]
+          intro hc
+          simp only [setHolder_pc] at hc
+          have hold := hL.holds t' hc
+          have hne : s.mylock t' ≠ s.mylock t := fun e => by rw [e, hl] at hold; exact absurd hold (by simp)
+          simp only [setHolder_mylock]
+          rw [setHolder_other _ _ hne]; exact hold
+      · intro l' h hl'
+        simp only [goto_locks] at hl'
+        by_cases e : l' = s.mylock t
+        · subst e
+          rw [setHolder_self] at hl'
+          have : h = t := (Option.some.inj hl').symm
+          subst this
+          exact ⟨hsel, by simp [inCS]⟩
+        · rw [setHolder_other _ _ e] at hl'
+          have := (hL.only l' h hl').1
+          rw [hsel] at this
+          exact absurd (Option.some.inj this).symm e
+      · intro t'
+        by_cases h : t' = t
+        · rw [h, goto_pc_self]
+          exact hI.free hheld
+        · rw [goto_pc_other _ _ h]
           exact PCok_mono (s := s) rfl rfl (fun _ hc => hc) (hI.pcs t')
   | recheck =>
     simp only
     rw [hpc] at hpt
     apply inv_goto hI
+    · rw [hpc]; split <;> rfl
     · rw [hpc]; split <;> rfl
     · split
       · rename_i hne
@@ -164,31 +340,24 @@ theorem step_inv (cfg : Cfg) (hr : cfg.recheck = true) (s : State) (t : Nat) (hI
     simp only [PCok] at hpt
     apply inv_goto hI
     · rw [hpc]; split <;> rfl
+    · rw [hpc]; split <;> rfl
     · simp only [hpt.1, if_true, PCok]; exact ⟨trivial, hpt.2⟩
   | create =>
     simp only
-    rw [hpc] at hpt hmt
+    rw [hpc] at hpt
     simp only [PCok] at hpt
-    have hlk : s.lock = some t := hmt.1 rfl
-    refine ⟨?_, ?_, ?_, ?_, ?_, ?_⟩
+    have hcs : inCS (s.pc t) = true := by rw [hpc]; rfl
+    refine ⟨?_, ?_, lockinv_frame hL rfl rfl rfl rfl (by rw [hpc]; rfl) (by rw [hpc]; rfl), ?_, ?_, ?_⟩
     · simp [hpt.1, hpt.2]
-    · intro h; simp [hlk] at h
-    · intro t'
-      by_cases h : t' = t
-      · subst h; simp [inCS, hlk]
-      · simpa [h] using hI.mutex t'
+    · intro h
+      have := hL.held_of_inCS hcs
+      simp only [State.held, goto_slot, goto_locks] at h this
+      rw [this] at h; exact absurd h (by simp)
     · intro t'
       by_cases h : t' = t
       · subst h; simp [PCok, hpt.1, hpt.2]
       · simp only [goto_pc_other _ _ h]
-        have hncs : inCS (s.pc t') = false := by
-          cases hc : inCS (s.pc t') with
-          | false => rfl
-          | true =>
-            have := (hI.mutex t').1 hc
-            rw [hlk] at this
-            exact absurd (Option.some.inj this) (fun e => h e.symm)
-        exact PCok_outside_zero (s := s) hncs hpt.1 (hI.pcs t')
+        exact PCok_outside_zero (s := s) (hL.others_outside hcs t' h) hpt.1 (hI.pcs t')
     · intro c hc
       simp only [goto_calls, List.mem_cons] at hc
       rcases hc with rfl | hc
@@ -197,51 +366,53 @@ theorem step_inv (cfg : Cfg) (hr : cfg.recheck = true) (s : State) (t : Nat) (hI
     · simp [List.countP_cons, Call.isCreate, hI.count]
   | setId id =>
     simp only
-    rw [hpc] at hpt hmt
+    rw [hpc] at hpt
     simp only [PCok] at hpt
     obtain ⟨rfl, hc1, hu0⟩ := hpt
-    have hlk : s.lock = some t := hmt.1 rfl
-    refine ⟨?_, ?_, ?_, ?_, hI.calls, hI.count⟩
+    have hcs : inCS (s.pc t) = true := by rw [hpc]; rfl
+    refine ⟨?_, ?_, lockinv_frame hL rfl rfl rfl rfl (by rw [hpc]; rfl) (by rw [hpc]; rfl), ?_, hI.calls, hI.count⟩
     · simp [hc1]
-    · intro h; simp [hlk] at h
-    · intro t'
-      by_cases h : t' = t
-      · subst h; simp [inCS, hlk]
-      · simpa [h] using hI.mutex t'
+    · intro _ h0; simp at h0
     · intro t'
       by_cases h : t' = t
       · subst h; simp [PCok]
       · simp only [goto_pc_other _ _ h]
-        have hncs : inCS (s.pc t') = false := by
-          cases hc : inCS (s.pc t') with
-          | false => rfl
-          | true =>
-            have := (hI.mutex t').1 hc
-            rw [hlk] at this
-            exact absurd (Option.some.inj this) (fun e => h e.symm)
-        exact PCok_outside_one (s := s) hncs rfl (fun _ hc => hc) (hI.pcs t')
+        exact PCok_outside_one (s := s) (hL.others_outside hcs t' h) rfl (fun _ hc => hc) (hI.pcs t')
   | release ok =>
     simp only
-    rw [hpc] at hpt hmt
+    rw [hpc] at hpt
     simp only [PCok] at hpt
     obtain ⟨rfl, hu1⟩ := hpt
-    have hlk : s.lock = some t := hmt.1 rfl
+    have hcs : inCS (s.pc t) = true := by rw [hpc]; rfl
+    have hsel : s.slot = some (s.mylock t) := hL.sel t (usesLock_of_inCS hcs)
     simp only [if_true]
-    refine ⟨hI.ids, ?_, ?_, ?_, hI.calls, hI.count⟩
-    · intro _ h0; simp only [goto_uploadId] at h0; omega
+    refine ⟨hI.ids, ?_, ⟨?_, ?_, ?_⟩, ?_, hI.calls, hI.count⟩
+    · intro _ h0; simp only [goto_uploadId] at h0
+      have : s.uploadId = 0 := h0
+      omega
     · intro t'
       by_cases h : t' = t
-      · subst h; simp [inCS]
-      · have := hI.mutex t'
-        rw [hlk] at this
-        simp only [goto_pc_other _ _ h, goto_lock]
-        constructor
-        · intro hc; exact absurd (Option.some.inj (this.1 hc)) (fun e => h e.symm)
-        · intro hc; simp at hc
+      · rw [h]; simp [usesLock]
+      · simp only [goto_pc_other _ _ h]; exact hL.sel t'
     · intro t'
       by_cases h : t' = t
-      · subst h; simpa [PCok] using hu1
+      · rw [h]; simp [inCS]
       · simp only [goto_pc_other _ _ h]
+        intro hc
+        simp only [setHolder_pc] at hc
+        exact absurd hc (by rw [hL.others_outside hcs t' h]; simp)
+    · intro l' h hl'
+      simp only [goto_locks] at hl'
+      by_cases e : l' = s.mylock t
+      · subst e; rw [setHolder_self] at hl'; exact absurd hl' (by simp)
+      · rw [setHolder_other _ _ e] at hl'
+        have := (hL.only l' h hl').1
+        rw [hsel] at this
+        exact absurd (Option.some.inj this).symm e
+    · intro t'
+      by_cases h : t' = t
+      · rw [h, goto_pc_self]; exact hu1
+      · rw [goto_pc_other _ _ h]
         exact PCok_mono (s := s) rfl rfl (fun _ hc => hc) (hI.pcs t')
   | useAssert =>
     simp only
@@ -249,26 +420,23 @@ theorem step_inv (cfg : Cfg) (hr : cfg.recheck = true) (s : State) (t : Nat) (hI
     simp only [PCok] at hpt
     apply inv_goto hI
     · rw [hpc]; split <;> rfl
+    · rw [hpc]; split <;> rfl
     · simp [hpt, PCok]
   | readId =>
     simp only
     rw [hpc] at hpt
     simp only [PCok] at hpt
-    exact inv_goto hI (by rw [hpc]; rfl) (by simp [PCok, hpt])
+    exact inv_goto hI (by rw [hpc]; rfl) (by rw [hpc]; rfl) (by simp [PCok, hpt])
   | call id =>
     simp only
-    rw [hpc] at hpt hmt
+    rw [hpc] at hpt
     simp only [PCok] at hpt
     obtain ⟨rfl, hu1⟩ := hpt
-    have hnl : s.lock ≠ some t := fun h => by simpa [inCS] using hmt.2 h
     cases hk : cfg.kind t with
     | write p =>
       simp only
-      refine ⟨hI.ids, hI.free, ?_, ?_, ?_, ?_⟩
-      · intro t'
-        by_cases h : t' = t
-        · subst h; simpa [inCS] using hnl
-        · simpa [h] using hI.mutex t'
+      refine ⟨hI.ids, hI.free, lockinv_frame hL rfl rfl rfl rfl (by rw [hpc]; rfl) (by rw [hpc]; rfl),
+        ?_, ?_, ?_⟩
       · intro t'
         by_cases h : t' = t
         · subst h; simp [PCok, hk, hu1]
@@ -282,11 +450,8 @@ theorem step_inv (cfg : Cfg) (hr : cfg.recheck = true) (s : State) (t : Nat) (hI
       · simpa [List.countP_cons, Call.isCreate] using hI.count
     | fin =>
       simp only
-      refine ⟨hI.ids, hI.free, ?_, ?_, ?_, ?_⟩
-      · intro t'
-        by_cases h : t' = t
-        · subst h; simpa [inCS] using hnl
-        · simpa [h] using hI.mutex t'
+      refine ⟨hI.ids, hI.free, lockinv_frame hL rfl rfl rfl rfl (by rw [hpc]; rfl) (by rw [hpc]; rfl),
+        ?_, ?_, ?_⟩
       · intro t'
         by_cases h : t' = t
         · subst h; simp [PCok, hk, hu1]
@@ -302,24 +467,24 @@ theorem step_inv (cfg : Cfg) (hr : cfg.recheck = true) (s : State) (t : Nat) (hI
     simp only
     rw [hpc] at hpt
     simp only [PCok] at hpt
-    refine inv_goto hI (by rw [hpc]; rfl) ?_
+    refine inv_goto hI (by rw [hpc]; rfl) (by rw [hpc]; rfl) ?_
     simp only [PCok, hpt.2.1]
     exact ⟨hpt.1, hpt.2.2⟩
   | done => simpa using hI
   | failed => simpa using hI
 
-theorem runFrom_inv (cfg : Cfg) (hr : cfg.recheck = true) (sched : List Nat) :
+theorem runFrom_inv (cfg : Cfg) (hr : cfg.recheck = true) (ha : cfg.atomicLock = true) (sched : List Nat) :
     ∀ s, Inv cfg s → Inv cfg (runFrom cfg s sched) := by
   induction sched with
   | nil => intro s h; exact h
-  | cons t rest ih => intro s h; exact ih _ (step_inv cfg hr s t h)
+  | cons t rest ih => intro s h; exact ih _ (step_inv cfg hr ha s t h)
 
 /-! ### progress -/
 
 theorem step_pc_other (cfg : Cfg) (s : State) {t t' : Nat} (h : t' ≠ t) :
     (step cfg s t).pc t' = s.pc t' := by
   unfold step
-  split <;> (try split) <;> simp [h]
+  split <;> (try split) <;> simp [h, State.setMy, State.setHolder]
 
 theorem runFrom_pc_unscheduled (cfg : Cfg) (sched : List Nat) (t : Nat) (ht : t ∉ sched) :
     ∀ s, (runFrom cfg s sched).pc t = s.pc t := by
@@ -356,10 +521,10 @@ theorem all_done_of_stuck (cfg : Cfg) (s : State) (hI : Inv cfg s) (T : List Nat
   unfold enabled at hen
   cases hp : s.pc t <;> rw [hp] at hen hok <;> simp at hen
   · -- blocked at `acquire`: the holder is inside the critical section, hence enabled
-    cases hl : s.lock with
+    cases hl : s.locks (s.mylock t) with
     | none => simp [hl] at hen
     | some h =>
-      have hcs : inCS (s.pc h) = true := (hI.mutex h).2 hl
+      have hcs : inCS (s.pc h) = true := (hI.lk.only _ h hl).2
       have hh : h ∈ T := hT h (fun e => by rw [e] at hcs; simp [inCS] at hcs)
       have := enabled_of_inCS s h hcs
       rw [hmax h hh] at this
@@ -368,7 +533,8 @@ theorem all_done_of_stuck (cfg : Cfg) (s : State) (hI : Inv cfg s) (T : List Nat
 
 /-- number of steps a thread at program point `p` can still take -/
 def remaining : PC → Nat
-  | .start => 12 | .askClient => 11 | .acquire => 10 | .recheck => 9 | .initAssert => 8
+  | .start => 14 | .askClient => 13 | .lockGet => 12 | .lockSetdefault => 11 | .acquire => 10
+  | .recheck => 9 | .initAssert => 8
   | .create => 7 | .setId _ => 6 | .release _ => 5 | .useAssert => 4 | .readId => 3
   | .call _ => 2 | .askClient2 => 1 | .done => 0 | .failed => 0
 
@@ -380,9 +546,11 @@ theorem step_decreases (cfg : Cfg) (s : State) (t : Nat) (h : enabled s t = true
   cases hp : s.pc t with
   | start => simp only []; split <;> simp [remaining]
   | askClient => simp [remaining]
+  | lockGet => simp only []; split <;> simp [remaining]
+  | lockSetdefault => simp only []; split <;> simp [remaining]
   | acquire =>
     rw [hp] at h
-    cases hl : s.lock with
+    cases hl : s.locks (s.mylock t) with
     | none => simp only [goto_pc_self]; split <;> simp [remaining]
     | some _ => simp [hl] at h
   | recheck => simp only []; split <;> simp [remaining]
